@@ -95,9 +95,9 @@ Theorem C08_mux_complete :
 Proof. exact @mux_complete. Qed.
 Print Assumptions C08_mux_complete.
 
-(* every value type of the property has an encoder and a writer in every format; excluded are
-   the values the database / a text file refuses (an integer outside 64 bits in the two SQL
-   formats, a string with a lone surrogate outside JSON) *)
+(* every value type of the property has an encoder and a writer in every format, integers of
+   any size included (sql_int hands the ones beyond 64 bits to the database as text); excluded
+   is only what a text file / the database refuses: a string with a lone surrogate outside JSON *)
 Theorem C08_encode_total :
   forall f v, encodable f v = true -> exists c, encode f false v = Ok c.
 Proof. exact encode_total. Qed.
@@ -183,5 +183,7 @@ Example C08_ex_encode_dt :
   encode FJson false (VBool true) = Ok (CBool true) /\
   encode FDb false (VBool true) = Ok (CText [49]) /\
   encode FCsv false VNull = Ok (CText []) /\
-  encode FDb false (VInt (2 ^ 63)) = Err (Internal "OverflowError").
+  encode FDb false (VInt (2 ^ 63)) = Ok (CText (text_of_string "9223372036854775808")) /\
+  encode FSql false (VRef "B" (2 ^ 70)) = Ok (CText (text_of_string "1180591620717411303424")) /\
+  encode FDb false (VStr [55296]) = Err (Internal "UnicodeEncodeError").
 Proof. repeat split; vm_compute; reflexivity. Qed.
